@@ -36,6 +36,8 @@ func obsEnabled(k int, mlUp bool) []string {
 	for i := 0; i < k; i++ {
 		acts = append(acts, fmt.Sprintf("sync-alive@%d", 5+3*i), fmt.Sprintf("sync-left@%d", 7+3*i))
 	}
+	// ties: a leave with the Lamport time of the first join, a join with that of the first leave
+	acts = append(acts, "leave@5", "join@6")
 	return acts
 }
 
@@ -72,7 +74,8 @@ func obsExec(scenario string, hist []string) vc.BFSState {
 			}
 			st.Violations = append(st.Violations, vc.BFSViolation{Signature: sig, Class: "step", Message: msg})
 		}
-		heard := uint64(0) // newest gossiped intent about x received while the node did not know x yet
+		firstKind := map[uint64]string{} // per Lamport time: kind of the first intent about x received while x was unknown
+		heard := uint64(0)               // newest gossiped intent about x received while the node did not know x yet
 		for i, a := range hist {
 			s0, l0, k0 := look()
 			op, t := a, uint64(0)
@@ -115,6 +118,23 @@ func obsExec(scenario string, hist []string) vc.BFSState {
 			if !k0 && !k1 && (op == "join" || op == "leave") && t > heard {
 				heard = t
 			}
+			if !k0 && !k1 && t != 0 {
+				// every source of a buffered intent, first come first kept on equal times
+				kind := "join"
+				if op == "leave" || op == "sync-left" {
+					kind = "leave"
+				}
+				te := t
+				if op == "sync-left" {
+					te = t + 1 // MergeRemoteState turns a left-list entry into a leave intent at status time + 1
+				}
+				if _, was := firstKind[te]; !was {
+					firstKind[te] = kind
+				}
+			}
+			if fk, was := firstKind[l1]; !k0 && k1 && was && ((fk == "join") != (s1 == "alive")) {
+				viol("tie-between-buffered-intents-resolved-for-the-later-one", fmt.Sprintf("history %v: step %d (%s) created the record of x as %s with status time %d, but the first intent with that time received while x was unknown was a %s: an intent that is not newer replaced the buffered one", hist[:i+1], i, a, s1, l1, fk))
+			}
 			if !k0 && k1 && l1 < heard {
 				// nothing expires here (no time passes): the newest buffered intent decides the new record
 				viol("record-created-older-than-buffered-intent", fmt.Sprintf("history %v: step %d (%s) created the record of x as %s with status time %d although an intent with time %d about x had been received (and buffered) before: an older intent overrode a newer one", hist[:i+1], i, a, s1, l1, heard))
@@ -154,6 +174,18 @@ func obsExec(scenario string, hist []string) vc.BFSState {
 		sort.Strings(f)
 		sort.Strings(l)
 		st.Key = fmt.Sprintf("ml=%v %s intents=%v failed=%v left=%v clock=%d", mlUp, strings.Join(parts, " "), in, f, l, d.Clock)
+		if _, _, known := look(); !known {
+			// the oracle's own memory is part of the state while it is still needed: two histories
+			// that leave the node in the same state but differ in what was heard first have
+			// different obligations
+			maxT := uint64(0)
+			for t := range firstKind {
+				if t > maxT {
+					maxT = t
+				}
+			}
+			st.Key += fmt.Sprintf(" heard=%d first=%d/%s", heard, maxT, firstKind[maxT])
+		}
 		st.Note = st.Key
 		st.Enabled = obsEnabled(k, mlUp)
 		n.S.Shutdown()
